@@ -38,18 +38,21 @@ inductive Msg where
   | badAlert          -- alert record that is not two bytes, or whose level is neither warning nor fatal
   | unknownRecord     -- record type outside 20..23
   | oversizedRecord   -- record header announcing more than maxCiphertext bytes
-  | badRecord         -- record that fails decryption / MAC under the negotiated cipher
+  | wrongVersionRecord -- record whose header version is refused: not the negotiated one, or >= 0x1000 before that
+  | badRecord         -- handshake or alert record that fails decryption / MAC under the negotiated cipher
+  | badRecordOther    -- record of another type that fails decryption / MAC
   | eof               -- the stream ended
 deriving DecidableEq, Repr
 
 /-- Alert the endpoint writes when it aborts (`none`: it writes nothing). -/
 inductive Alert where
-  | none | unexpectedMessage | badRecordMac | recordOverflow | handshakeFailure | internalError | noRenegotiation
+  | none | unexpectedMessage | badRecordMac | recordOverflow | handshakeFailure | protocolVersion | internalError
+  | noRenegotiation
 deriving DecidableEq, Repr
 
 def Alert.code : Alert → Option Nat
   | .none => Option.none | .unexpectedMessage => some 10 | .badRecordMac => some 20 | .recordOverflow => some 22
-  | .handshakeFailure => some 40 | .internalError => some 80 | .noRenegotiation => some 100
+  | .handshakeFailure => some 40 | .protocolVersion => some 70 | .internalError => some 80 | .noRenegotiation => some 100
 
 /-- What the handshake code reads next. -/
 inductive Phase where
@@ -142,8 +145,13 @@ def rejectAlert (c : Cfg) (p : Phase) (m : Msg) : Alert :=
   if m = .serverHelloDone ∧ c.skx = true ∧ (p = .cAfterCert ∨ p = .cAfterStatus ∨ p = .cDoneNoSKX) then .internalError
   else .unexpectedMessage
 
-/-- a handshake record while the code asked for ChangeCipherSpec: `readRecord` answers no_renegotiation, except in
-    the GMSSL client, which never sets `haveVers` and so treats every record by the first-record rule -/
+/-- `c.haveVers`: set by the servers and by the TLS client once the hello is processed; the GMSSL client never
+    sets it, so `readRecord` applies its first-record rule (type must be alert or the wanted one, version below
+    0x1000, both checked before decryption) to every record it ever reads -/
+def haveVers (c : Cfg) (p : Phase) : Bool := !(!c.server && c.gm) && p != .sHello && p != .cHello
+
+/-- a handshake record while the code asked for ChangeCipherSpec: no_renegotiation; by the first-record rule
+    unexpected_message -/
 def hsAtCCSAlert (c : Cfg) : Alert := if !c.server && c.gm then .unexpectedMessage else .noRenegotiation
 
 /-- One event. -/
@@ -154,7 +162,9 @@ def step (c : Cfg) (s : State) (m : Msg) : Result :=
       if s.warn + 1 > maxWarnAlertCount then .error .unexpectedMessage else .cont { s with warn := s.warn + 1 }
   | .badAlert | .unknownRecord | .appData | .badCcs => .error .unexpectedMessage
   | .oversizedRecord => .error .recordOverflow
+  | .wrongVersionRecord => if haveVers c s.phase then .error .protocolVersion else .error .unexpectedMessage
   | .badRecord => .error .badRecordMac
+  | .badRecordOther => if haveVers c s.phase then .error .badRecordMac else .error .unexpectedMessage
   | .trailing => .cont { s with pend := true }
   | .ccs =>
       if wantsCCS s.phase && !s.pend then
